@@ -149,9 +149,30 @@ class FlowRobust:
                 p = mutate(rng, p)
         return "sflow %s%s" % (filt, hx(p))
 
+    def type_sweep(self, proto, g, rng):
+        """every abstract data type at every encoded length 0..9, 16, 17 (Interpret's length guard and the fixed-width reads
+        behind it): one element per type, a template [8-octet field, that element at that length], two records"""
+        cmd = "ipfixh" if proto == "ipfix" else "nf9h"
+        by_type = {}
+        for (pen, eid), (fid, ty) in sorted(g.model.items()):
+            if pen == 0 and 0 < eid < 32768:
+                by_type.setdefault(ty, eid)
+        out = []
+        for ty, eid in sorted(by_type.items()):
+            for ln in (0, 1, 2, 3, 4, 5, 6, 7, 8, 9, 16, 17):
+                addr = rand_addr(rng)
+                t = Tpl(256 + ty, [], [(1, 0, 8), (eid, 0, ln)])
+                m1 = g.enc_msg([g.enc_set(g.tpl_set_id(False), g.enc_tpl(t, False))])
+                body = b"".join(bytes(rng.randrange(256) for _ in range(8 + ln)) for _ in range(2))
+                m2 = g.enc_msg([g.enc_set(t.tid, body)])
+                out.append("%s %s %s %s %s" % (cmd, hx(addr), hx(m1), hx(addr), hx(m2)))
+        return out
+
     def cases(self, tier, rng, budget):
         gens = {p: Gen(p, go_model(), rng) for p in ("ipfix", "nf9")}
         out = []
+        for p in ("ipfix", "nf9"):
+            out += self.type_sweep(p, gens[p], rng)
         for i in range(budget):
             proto = self.protos[i % len(self.protos)]
             if proto == "nf5":
